@@ -7,7 +7,8 @@ ops:
   wiring hasher=identity|md5      (first op of a case only; default identity = production)        → ok
   remedy id=<n> name=<enc> allowed=<int> win=<sec> status=<int> spill=<0|1> renew=<int>
          [hdr=<enc> | nohdr] [default=<enc>] [dpct=<n>/<d>] [g=<encval>&<n>/<d>]...     → ok
-  req id=<n> t=<ns> [h=<encname>&<encval>]...              → noop | early <status> | err:<class> | panic
+  req id=<n> t=<ns> [tick=<ns>] [h=<encname>&<encval>]...  → noop | early <status> | err:<class> | panic  [reads=<k>]
+         (tick: the clock advances by that much on EVERY reading during the call; t = first reading)
   burst id=<n> t=<ns> n=<count> par=<goroutines> [h=..]... [alt=<encname>&<encval>]...
                                                             → passed=<k> blocked=<m> other=<o> status=<s|-> [pa=.. ba=..]
          (count concurrent OnRequest calls at one instant; the model answers for any sequential order)
@@ -115,11 +116,18 @@ def runStep1 (s : RunSt) (line : String) : RunSt × String :=
   | "req" :: ws =>
     match kvNat ws "id", kvNat ws "t", parseHdrs (kvAll ws "h") with
     | some id, some t, some hs =>
+      if (kv ws "tick").isSome && (kvNat ws "tick").isNone then (s, "bad-op") else
       match s.tbl.get id with
       | some r0 =>
         let r := { r0 with identityHash := s.identity }
         let (st', a) := pluginStep capUnits s.st r hs t
-        ({ s with st := st' }, fmtAnswer a)
+        -- `tick=`: the clock advances on every reading; the model says how many readings the call makes:
+        -- `readsTryToIncrement` when the request reaches the limiter (also when a zero window then panics)
+        let reads := match resolve r hs with
+          | .limited _ _ => readsTryToIncrement
+          | .direct _ => 0
+        let tail := if (kv ws "tick").isSome then s!" reads={reads}" else ""
+        ({ s with st := st' }, fmtAnswer a ++ tail)
       | none => (s, "bad-op")
     | _, _, _ => (s, "bad-op")
   | "burst" :: ws =>
@@ -174,7 +182,7 @@ structure JudgeSt where
   started : Bool := false
 
 def parseAnswer (out : String) : Option Answer :=
-  match words out with
+  match (words out).filter (fun w => !w.startsWith "reads=") with
   | ["noop"] => some .noop
   | ["early", s] => s.toInt?.map .early
   | ["panic"] => some .panic
